@@ -1906,6 +1906,13 @@ func (s *PrintCtx) appendTimestamp(z time.Time) {
 	// return tm.Format(layout)
 
 	if s.jsonMode || s.noColor {
+		if !plainLayout(layout) {
+			// the literal text of the layout needs escaping
+			// inside the quotes, as any string value does.
+			var a [64]byte
+			s.appendQuotedString(string(tm.AppendFormat(a[:0], layout)))
+			return
+		}
 		s.pcAppendByte('"')
 		s.buf = tm.AppendFormat(s.buf, layout)
 		// t := tm.Format(layout)
@@ -1918,6 +1925,18 @@ func (s *PrintCtx) appendTimestamp(z time.Time) {
 		// t := tm.Format(layout)
 		// s.pcAppendString(t)
 	}
+}
+
+// plainLayout reports whether a time formatted with layout can be
+// written between double quotes as it is: the layout holds no quote,
+// backslash, control character or non-ASCII byte.
+func plainLayout(layout string) bool {
+	for i := 0; i < len(layout); i++ {
+		if c := layout[i]; c < 0x20 || c == '"' || c == '\\' || c >= 0x7f {
+			return false
+		}
+	}
+	return true
 }
 
 func itoaS[T Integers](s *PrintCtx, val T) {
